@@ -192,6 +192,9 @@ class FakeComm:
         return obj
 
     def Bcast(self, buf, root: int = 0) -> None:
+        if isinstance(buf, np.ndarray) and not (buf.flags.c_contiguous or buf.flags.f_contiguous):
+            # same refusal as mpi4py's buffer protocol
+            raise ValueError("ndarray is not contiguous")
         me0 = self.Get_rank()
         slot, me = self._enter("Bcast", root, np.array(buf, copy=True) if me0 == root else None)
         if me != root:
